@@ -112,6 +112,32 @@ func c17(c *Ctx) {
 			}
 		}
 	})
+	if nSet == 0 {
+		// option form: keyset.AsPrimary() is appended to the options of the add call
+		// exactly under e.keyID == w.primaryKeyID
+		nAs := 0
+		allInstrs(f, func(ins ssa.Instruction) {
+			call, ok := ins.(*ssa.Call)
+			if !ok || !strings.HasSuffix(guard.CalleeName(&call.Call), "keyset.AsPrimary") {
+				return
+			}
+			nAs++
+			for _, fct := range guard.InstrFacts(ins) {
+				op, x, y, isC := guard.Cmp(fct)
+				if !isC || op != token.EQL {
+					continue
+				}
+				_, fx, okx := guard.FieldOf(x)
+				_, fy, oky := guard.FieldOf(y)
+				if okx && oky && ((fx == "keyID" && fy == "primaryKeyID" && fromElem(x)) || (fy == "keyID" && fx == "primaryKeyID" && fromElem(y))) {
+					okPrim = true
+				}
+			}
+		})
+		if nAs == 1 {
+			nSet = 1
+		}
+	}
 	r.Check(okPrim && nSet == 1, "C17.pairing", "C17.pairing/DeriveKeyset/SetPrimary", p.FuncPos(f), "SetPrimary is not called exactly for the element whose key ID equals the deriver keyset's primary key ID (e.g. primary tracked by position)", "SetPrimary(e.keyID) under e.keyID == w.primaryKeyID")
 	// result is km.Handle()
 	okRet := false
@@ -150,6 +176,45 @@ func c17(c *Ctx) {
 				}
 				ok = z && id
 			})
+		}
+		if !ok {
+			// default-zero form: the wrapper is allocated with idRequirement 0 and the
+			// only store sets entry.KeyID() under prefix type != RAW (here or in a helper)
+			scope := withClosures(nw)
+			seenFn := map[*ssa.Function]bool{}
+			for _, g := range scope {
+				seenFn[g] = true
+			}
+			for _, g := range append([]*ssa.Function{}, scope...) {
+				allInstrs(g, func(ins ssa.Instruction) {
+					if call, isC := ins.(*ssa.Call); isC {
+						if h := call.Call.StaticCallee(); h != nil && h.Blocks != nil && h.Pkg == nw.Pkg && !seenFn[h] {
+							seenFn[h] = true
+							scope = append(scope, h)
+						}
+					}
+				})
+			}
+			nStores, good := 0, false
+			for _, g := range scope {
+				allInstrs(g, func(ins ssa.Instruction) {
+					_, fld, val, isS := guard.StoreField(ins)
+					if !isS || fld != "idRequirement" {
+						return
+					}
+					nStores++
+					cc, _ := guard.CallOf(val)
+					if cc == nil || !isEntryMethod(&cc.Call, "KeyID") {
+						return
+					}
+					for _, fct := range guard.InstrFacts(ins) {
+						if op, x, y, okc := guard.Cmp(fct); okc && op == token.NEQ && (isConstEq(x, raw) || isConstEq(y, raw)) {
+							good = true
+						}
+					}
+				})
+			}
+			ok = good && nStores == 1
 		}
 		r.Check(ok, "C17.pairing", "C17.pairing/NewWithConfig/legacy idRequirement", p.FuncPos(nw), "the legacy deriver wrapper's ID requirement is not (0 if RAW else entry.KeyID())", "phi[0 under RAW, entry.KeyID()]")
 	}
